@@ -768,6 +768,10 @@ class DurationType(_CassandraType):
             m, d, n = duration.months, duration.days, duration.nanoseconds
         except AttributeError:
             raise TypeError('DurationType arguments must be a Duration.')
+        # Cassandra reads months and days as 32-bit and nanoseconds as 64-bit integers
+        if not (-2 ** 31 <= m < 2 ** 31 and -2 ** 31 <= d < 2 ** 31 and -2 ** 63 <= n < 2 ** 63):
+            raise ValueError('Duration out of range: months and days must fit in 32 bits '
+                             'and nanoseconds in 64 bits: %r' % (duration,))
         return vints_pack([m, d, n])
 
 
